@@ -201,7 +201,7 @@ func (p *IGMPv3Query) UnmarshalBinary(data []byte) error {
 	n += 1
 	p.NumberOfSources = binary.BigEndian.Uint16(data[n:])
 	n += 2
-	if len(data) < int(p.Len()) {
+	if len(data) < 12+int(p.NumberOfSources)*4 {
 		return fmt.Errorf("The []byte is too short to unmarshal a full IGMPv3Query message.")
 	}
 	for j := 0; j < int(p.NumberOfSources); j++ {
